@@ -47,10 +47,10 @@ def l_text(toks):
 _KIND = {"b": "b", "bold": "b", "i": "i", "italic": "i", "u": "u", "underline": "u"}
 _TAG = re.compile(r"<(/?)(b|i|u|bold|italic|underline)>|\{(/?)(b|i|u|bold|italic|underline)\}|"
                   r"<font\s+color=(\"[^\">]*\"|'[^'>]*'|[^\s\"'>]+)\s*>|(</font>)|"
-                  r"(<font(?:\s+(?:face|size)=\"[^\">]*\")*\s*>)|<(/?)(em|span|s|small)>", re.I)
+                  r"(<font(?:\s+(?:face|size)=\"[^\">]*\")*\s*>)|<(/?)(em|span|s|small|big|ins|ul|blink|img|body|fonts)>", re.I)
 # tags that style nothing: a font tag without colour (typeface / size only) and tags outside b / i / u / font; they are
 # opened and closed like any tag (kind = the lower-case name) and what they enclose keeps the styles in force
-OTHER_TAGS = ("em", "span", "s", "small")
+OTHER_TAGS = ("em", "span", "s", "small", "big", "ins", "ul", "blink", "img", "body", "fonts")   # (some begin like b / i / u / font)
 _HEX = re.compile(r"#([0-9a-fA-F]{2})([0-9a-fA-F]{2})([0-9a-fA-F]{2})([0-9a-fA-F]{2})?$")
 _TIMING = re.compile(r"\s*(\d{2,3}):(\d\d):(\d\d),(\d{3})\s+-->\s+(\d{2,3}):(\d\d):(\d\d),(\d{3})\s*$")
 
@@ -89,6 +89,8 @@ def lex_text_line(s):
 
 def lex_srt(text):
   """Split a file into lines (LF or CR LF) and give each line its lexical features."""
+  if text.startswith("\ufeff"):
+    text = text[1:]                 # the byte order mark is not part of the text
   lines = text.split("\n")
   if lines and lines[-1] == "":
     lines.pop()
